@@ -50,38 +50,38 @@ theorem nhMp_bytes (nh : Nh) (h : NhMp nh) :
 
 /-- the model families use the plain next-hop length form -/
 theorem nhPart_ip (f : Fam) (v6 : Bool) (hf : isIpFam f = some v6) :
-    isFlowspec f = false ∧ isVpn f = false ∧ isEvpn f = false := by
+    isFlowspec f = false ∧ isVpn f = false := by
   unfold isIpFam at hf
-  unfold isFlowspec isVpn isEvpn
+  unfold isFlowspec isVpn
   split at hf
   · rename_i h; obtain ⟨ha, hs⟩ := h
-    refine ⟨?_, ?_, ?_⟩ <;> simp <;> omega
+    refine ⟨?_, ?_⟩ <;> simp <;> omega
   · split at hf
     · rename_i _ h; obtain ⟨ha, hs⟩ := h
-      refine ⟨?_, ?_, ?_⟩ <;> simp <;> omega
+      refine ⟨?_, ?_⟩ <;> simp <;> omega
     · cases hf
 
 theorem mpReachEncode_ip (p : Profile) (c : Codec) (cur : Nat) (f : Fam) (v6 : Bool) (es : List Entry) (nh : Nh)
     (n : Nat) (nb : Bytes)
     (hf : isIpFam f = some v6) (hnh : NhMp nh) (henc : EncOk es)
-    (hn : n = fitN c.maxLen (17 + ap4 (c.addpathTx f)) (c.addpathTx f) (cur + 4 + (5 + nh.bytes.length)) es)
+    (hn : n = fitN c.maxLen 0 (c.addpathTx f) (cur + 4 + (5 + nh.bytes.length)) es)
     (hnb : nb = (es.take n).flatMap (encE (c.addpathTx f)))
+    (hpos : es ≠ [] → n ≠ 0)
     (hsz : 4 + (5 + nh.bytes.length) + nb.length < 65536) :
     mpReachEncode p c cur f es (some nh) =
       .ok (encRaw (mpReachRaw f nh.bytes nb), (encRaw (mpReachRaw f nh.bytes nb)).length, n) := by
-  obtain ⟨hfs, hvpn, hev⟩ := nhPart_ip f v6 hf
+  obtain ⟨hfs, hvpn⟩ := nhPart_ip f v6 hf
   obtain ⟨hlen, _⟩ := nhMp_bytes nh hnh
   have hl16 : ¬ (nh.bytes.length < 16 ∧ (!nhAsIs f) = true) := by
     intro ⟨h, _⟩; rcases hlen with h' | h' <;> omega
   have hmod : nh.bytes.length % 256 = nh.bytes.length := by
     rcases hlen with h' | h' <;> omega
   unfold mpReachEncode
-  simp only [hfs, hvpn, hev, Bool.false_eq_true, if_false, hl16, hmod, Out.bind_ok, Out.pure_eq]
+  simp only [hfs, hvpn, Bool.false_eq_true, if_false, hl16, hmod, Out.bind_ok, Out.pure_eq]
   have hhead : (be16 f.afi ++ [f.safi] ++ ([nh.bytes.length] ++ nh.bytes) ++ [0]).length = 5 + nh.bytes.length := by
     simp; omega
   simp only [hhead]
-  have hml : (if c.addpathTx f = true then 4 else 0) = ap4 (c.addpathTx f) := rfl
-  rw [hml, fitLoop_eq _ _ _ _ _ henc, ← hn, ← hnb]
+  rw [putEntries_eq _ _ _ _ _ henc (by rw [← hn]; exact hpos), ← hn, ← hnb]
   simp only [Out.bind_ok, Out.pure_eq]
   have hm2 : (4 + (5 + nh.bytes.length) + nb.length) % 65536 = 4 + (5 + nh.bytes.length) + nb.length :=
     Nat.mod_eq_of_lt hsz
@@ -101,47 +101,46 @@ theorem doEncode_reach_mp (p : Profile) (c : Codec) (f : Fam) (v6 : Bool) (attrs
     (hmp : ¬ (f = Fam.ipv4 ∧ (!c.extNh) = true))
     (hf : isIpFam f = some v6) (hnh : NhMp nh) (henc : EncOk es)
     (hattrs : encodeAttrs p c.twoByte attrs 0 = .ok (ab, ab.length))
-    (hn : n = fitN c.maxLen (17 + ap4 (c.addpathTx f)) (c.addpathTx f) (23 + ab.length + 4 + (5 + nh.bytes.length)) es)
+    (hn : n = fitN c.maxLen 0 (c.addpathTx f) (23 + ab.length + 4 + (5 + nh.bytes.length)) es)
     (hnb : nb = (es.take n).flatMap (encE (c.addpathTx f)))
+    (hpos : es ≠ [] → n ≠ 0)
     (hsz : ab.length + (4 + (5 + nh.bytes.length) + nb.length) < 65536) :
-    doEncode p c (.reach f (some nh) attrs es0) es =
+    doEncodeBody p c (.reach f (some nh) attrs es0) es =
       .ok (frame 2 ([0, 0] ++ be16 (ab.length + (encRaw (mpReachRaw f nh.bytes nb)).length) ++
              (ab ++ encRaw (mpReachRaw f nh.bytes nb))), n) := by
   have hel : (encRaw (mpReachRaw f nh.bytes nb)).length = 4 + (5 + nh.bytes.length) + nb.length := by
     rw [encRaw_mpReach]; simp [mpReachVal]; omega
-  unfold doEncode
+  unfold doEncodeBody
   simp only [hattrs, Out.bind_ok, hmp, if_false]
-  rw [mpReachEncode_ip p c (23 + ab.length) f v6 es nh n nb hf hnh henc hn hnb (by omega)]
-  simp only [Out.bind_ok]
-  rw [addU16_ok p _ _ (by omega)]
+  rw [mpReachEncode_ip p c (23 + ab.length) f v6 es nh n nb hf hnh henc hn hnb hpos (by omega)]
   simp only [Out.bind_ok, Out.pure_eq, List.append_assoc]
 
 /-! ### withdrawals and End-of-RIB -/
 
 theorem doEncode_unreach_legacy (p : Profile) (c : Codec) (es0 es : List Entry)
     (hleg : c.extNh = false) (henc : EncOk es) (n : Nat) (nb : Bytes)
-    (hn : n = fitN c.maxLen (5 + 2 + ap4 (c.addpathTx Fam.ipv4)) (c.addpathTx Fam.ipv4) 21 es)
+    (hn : n = fitN c.maxLen 2 (c.addpathTx Fam.ipv4) 21 es)
     (hnb : nb = (es.take n).flatMap (encE (c.addpathTx Fam.ipv4)))
+    (hpos : es ≠ [] → n ≠ 0)
     (hsz : nb.length < 65536) :
-    doEncode p c (.unreach Fam.ipv4 es0) es = .ok (frame 2 (be16 nb.length ++ nb ++ [0, 0]), n) := by
-  unfold doEncode
+    doEncodeBody p c (.unreach Fam.ipv4 es0) es = .ok (frame 2 (be16 nb.length ++ nb ++ [0, 0]), n) := by
+  unfold doEncodeBody
   simp only [hleg, Bool.not_false, and_self, if_true]
-  have hml : (if c.addpathTx Fam.ipv4 = true then 4 else 0) = ap4 (c.addpathTx Fam.ipv4) := rfl
-  rw [hml, fitLoop_eq _ _ _ _ _ henc, ← hn, ← hnb]
+  rw [putEntries_eq _ _ _ _ _ henc (by rw [← hn]; exact hpos), ← hn, ← hnb]
   simp only [Out.bind_ok, Out.pure_eq, Nat.mod_eq_of_lt hsz]
 
 theorem mpUnreachEncode_eq (p : Profile) (c : Codec) (cur : Nat) (f : Fam) (es : List Entry)
     (henc : EncOk es) (n : Nat) (nb : Bytes)
-    (hn : n = fitN c.maxLen (17 + ap4 (c.addpathTx f)) (c.addpathTx f) (cur + 4 + 3) es)
+    (hn : n = fitN c.maxLen 0 (c.addpathTx f) (cur + 4 + 3) es)
     (hnb : nb = (es.take n).flatMap (encE (c.addpathTx f)))
+    (hpos : es ≠ [] → n ≠ 0)
     (hsz : 7 + nb.length < 65536) :
     mpUnreachEncode p c cur f es =
       .ok (encRaw (mpUnreachRaw f nb), (encRaw (mpUnreachRaw f nb)).length, n) := by
   unfold mpUnreachEncode
-  have hml : (if c.addpathTx f = true then 4 else 0) = ap4 (c.addpathTx f) := rfl
   have hh : (be16 f.afi ++ [f.safi]).length = 3 := by simp
-  simp only [hh, hml]
-  rw [fitLoop_eq _ _ _ _ _ henc, ← hn, ← hnb]
+  simp only [hh]
+  rw [putEntries_eq _ _ _ _ _ henc (by rw [← hn]; exact hpos), ← hn, ← hnb]
   simp only [Out.bind_ok, Out.pure_eq]
   have hm2 : (4 + 3 + nb.length) % 65536 = 4 + 3 + nb.length := Nat.mod_eq_of_lt (by omega)
   rw [hm2, subU16_ok p _ _ (by omega)]
@@ -155,27 +154,28 @@ theorem mpUnreachEncode_eq (p : Profile) (c : Codec) (cur : Nat) (f : Fam) (es :
 
 theorem doEncode_unreach_mp (p : Profile) (c : Codec) (f : Fam) (es0 es : List Entry)
     (hmp : ¬ (f = Fam.ipv4 ∧ (!c.extNh) = true)) (henc : EncOk es) (n : Nat) (nb : Bytes)
-    (hn : n = fitN c.maxLen (17 + ap4 (c.addpathTx f)) (c.addpathTx f) (23 + 4 + 3) es)
+    (hn : n = fitN c.maxLen 0 (c.addpathTx f) (23 + 4 + 3) es)
     (hnb : nb = (es.take n).flatMap (encE (c.addpathTx f)))
+    (hpos : es ≠ [] → n ≠ 0)
     (hsz : 7 + nb.length < 65536) :
-    doEncode p c (.unreach f es0) es =
+    doEncodeBody p c (.unreach f es0) es =
       .ok (frame 2 ([0, 0] ++ be16 (encRaw (mpUnreachRaw f nb)).length ++ encRaw (mpUnreachRaw f nb)), n) := by
-  unfold doEncode
+  unfold doEncodeBody
   simp only [hmp, if_false]
-  rw [mpUnreachEncode_eq p c 23 f es henc n nb hn hnb hsz]
+  rw [mpUnreachEncode_eq p c 23 f es henc n nb hn hnb hpos hsz]
   simp only [Out.bind_ok, Out.pure_eq]
 
 theorem doEncode_eor_ipv4 (p : Profile) (c : Codec) (es : List Entry) :
-    doEncode p c (.eor Fam.ipv4) es = .ok (frame 2 [0, 0, 0, 0], 0) := by
-  unfold doEncode
+    doEncodeBody p c (.eor Fam.ipv4) es = .ok (frame 2 [0, 0, 0, 0], 0) := by
+  unfold doEncodeBody
   simp
 
 theorem doEncode_eor_mp (p : Profile) (c : Codec) (f : Fam) (es : List Entry) (hf : f ≠ Fam.ipv4) :
-    doEncode p c (.eor f) es =
+    doEncodeBody p c (.eor f) es =
       .ok (frame 2 ([0, 0] ++ be16 (encRaw (mpUnreachRaw f [])).length ++ encRaw (mpUnreachRaw f [])), 0) := by
-  unfold doEncode
+  unfold doEncodeBody
   simp only [ne_eq, hf, not_false_eq_true, if_true]
-  rw [mpUnreachEncode_eq p c 23 f [] (by intro e he; cases he) 0 [] (by simp [fitN]) (by simp) (by simp)]
+  rw [mpUnreachEncode_eq p c 23 f [] (by intro e he; cases he) 0 [] (by simp [fitN]) (by simp) (fun h => absurd rfl h) (by simp)]
   simp only [Out.bind_ok]
   rw [addU16_ok p _ _ (by rw [encRaw_mpUnreach]; simp)]
   simp
